@@ -39,7 +39,7 @@ M = [
  ("C12-24-removes-bold", "anstyle-ls/src/lib.rs", "            24 => {\n                effects = effects.remove(anstyle::Effects::UNDERLINE);", "            24 => {\n                effects = effects.remove(anstyle::Effects::BOLD);", ["C12"]),
  ("C12-48-writes-fg", "anstyle-ls/src/lib.rs", "                (Some(5), Some(color)) => bg_color = Some(anstyle::Ansi256Color(color).into()),", "                (Some(5), Some(color)) => fg_color = Some(anstyle::Ansi256Color(color).into()),", ["C12"]),
  ("C13-contains-any", "anstyle/src/effect.rs", None, None, ["C13"]),
- ("C14-text-not-escaped", "anstyle-svg/src/lib.rs", "    let fragment = html_escape::encode_text(fragment);\n    let mut classes = Vec::new();\n    if let Some(class) = fg_color.as_deref() {", "    let mut classes = Vec::new();\n    if let Some(class) = fg_color.as_deref() {", ["C14"]),
+ ("C14-text-not-escaped", "anstyle-svg/src/lib.rs", "    let fragment = html_escape::encode_text(fragment);\n    // A literal carriage return", "    let fragment = std::borrow::Cow::Borrowed(fragment);\n    // A literal carriage return", ["C14"]),
  ("C14-height-off-by-one", "anstyle-svg/src/lib.rs", "let height = styled_lines.len() * line_height + self.padding_px * 2;", "let height = (styled_lines.len() + 1) * line_height + self.padding_px * 2;", ["C14"]),
  ("C14-invert-fg-only", "anstyle-svg/src/lib.rs", "                    .bg_color(Some(style.get_fg_color().unwrap_or(self.fg_color)))\n", "", ["C14"]),
  ("C15-colours-swapped", "anstyle-roff/src/lib.rs", '    pub(crate) const BACKGROUND: &str = "fcolor";', '    pub(crate) const BACKGROUND: &str = "gcolor_";', ["C15"]),
